@@ -19,16 +19,16 @@ def _real_event_inside_waiter() -> str:
     out: List[str] = []
 
     def a():
-        out.append('passed' if ev.wait(2.0) else 'timeout')
+        out.append('passed' if ev.wait(30.0) else 'timeout')
     t = threading.Thread(target=a, daemon=True)
     t.start()
-    for _ in range(2000):                       # until A is inside wait()
+    for _ in range(30000):                      # until A is inside wait()
         if len(ev._cond._waiters) >= 1:         # introspection, no sleep-race
             break
         time.sleep(0.001)
     ev.set()
     ev.clear()
-    t.join(3.0)
+    t.join(40.0)
     return out[0] if out else 'stuck'
 
 
@@ -49,7 +49,7 @@ def _real_barrier(n: int, g: int) -> Dict[str, Any]:
         for _ in range(g):
             if i != 0:
                 time.sleep(0.002 * i)
-            bar.wait(5.0)
+            bar.wait(60.0)
             with lock:
                 gens[i] += 1
                 worst[0] = max(worst[0], max(gens) - min(gens))
@@ -57,7 +57,7 @@ def _real_barrier(n: int, g: int) -> Dict[str, Any]:
     for t in ts:
         t.start()
     for t in ts:
-        t.join(10.0)
+        t.join(120.0)
     return {'gens': gens, 'max_lead': worst[0]}
 
 
